@@ -85,6 +85,11 @@ pub struct ArenaState {
     pub n_free: u64,
     pub live: u64,
     pub exhausted: bool,
+    /// allocation-failure injection: when > 0, counts tracked allocations down;
+    /// the one that brings it to 0 fails (returns null) once
+    pub fail_in: u64,
+    /// an injected failure has happened and the library call has not returned yet
+    pub fail_fired: bool,
     /// Set by the allocator when it detects a bad free; the payload is read
     /// by `take_error`.
     pub error: Option<(ErrKind, usize)>,
@@ -114,6 +119,8 @@ pub static mut ST: ArenaState = ArenaState {
     n_free: 0,
     live: 0,
     exhausted: false,
+    fail_in: 0,
+    fail_fired: false,
     error: None,
 };
 
@@ -319,6 +326,18 @@ unsafe impl GlobalAlloc for CheckingAlloc {
     unsafe fn alloc(&self, layout: Layout) -> *mut u8 {
         let s = st();
         if s.track {
+            if s.fail_in > 0 {
+                s.fail_in -= 1;
+                if s.fail_in == 0 {
+                    // the library either handles the failure or ends the process
+                    // (handle_alloc_error): both are fine, see exec / interp
+                    s.fail_fired = true;
+                    // whatever the failure path allocates is none of the accounting's business
+                    crate::exec::shared().expect_abort = 1;
+                    crate::exec::shared().after_abort = 0;
+                    return std::ptr::null_mut();
+                }
+            }
             if s.count_only {
                 s.n_alloc += 1;
                 s.live += 1;
